@@ -102,7 +102,10 @@ func (dec *propertiesDecoder) Decode() (*CandidateNode, error) {
 		dec.finished = true
 		return nil, io.EOF
 	}
-	properties, err := properties.LoadString(buf.String())
+	// values are read as they are written: `${...}` is text (no expansion, so no check of references either);
+	// a line continuation works with CRLF line ends too
+	loader := &properties.Loader{Encoding: properties.UTF8, DisableExpansion: true}
+	properties, err := loader.LoadBytes([]byte(strings.ReplaceAll(buf.String(), "\r\n", "\n")))
 	if err != nil {
 		return nil, err
 	}
